@@ -177,6 +177,9 @@ def _split_guard(cond, pol):
     c = strip_all(cond)
     if c is not None and c.get("k") == "BinaryOperator" and ((c.get("op") == "&&" and pol) or (c.get("op") == "||" and not pol)):
         return _split_guard(c["c"][0], pol) + _split_guard(c["c"][1], pol)
+    # !X held true is X held false (an inlined helper tests `if (!cond) return;`)
+    if c is not None and c.get("k") == "UnaryOperator" and c.get("op") == "!" and not c.get("postfix"):
+        return _split_guard(c["c"][0], not pol)
     return [(cond, pol)]
 
 def run(F, R, tier, M=None):
@@ -302,12 +305,15 @@ def run(F, R, tier, M=None):
                 continue
             pos = [c for c, pol in conds if pol]
             neg = [c for c, pol in conds if not pol]
+            # a condition held false is its negation held true (guards are split through `!`)
+            pos = pos + ["!(%s)" % c for c in neg]
             if crx == ".*" or any(re.search(crx, c) for c in pos) or \
                     (label == "THDM undecidable basis" and any(re.search(crx, c) for c in neg)):
                 hits.append((f, t, ty))
                 # further conditions under which alone the rejection happens (they narrow the documented condition)
                 extra = [c for c in pos if crx != ".*" and not re.search(crx, c)] + \
-                        [("NOT " + c) for c in neg if not (label == "THDM undecidable basis" and re.search(crx, c))]
+                        [("NOT " + c) for c in neg if not (label == "THDM undecidable basis" and re.search(crx, c))
+                         and not (crx != ".*" and re.search(crx, "!(%s)" % c))]
                 if label == "THDM undecidable basis":
                     extra = []            # the documented condition *is* the conjunction of the two negated basis tests
                 narrowed.setdefault(label, []).append((f, t, extra))
